@@ -241,6 +241,9 @@ func c20Run(c *core.C) {
 	blk := ast.Block{Facts: []ast.Pred{ast.P("right", ast.Str("file1"), ast.Str("read"))}}
 	var tok, firstTok *biscuit.Biscuit
 	var err, firstErr error
+	var parentBefore, parentAfter []byte
+	var parentBroken string
+	emptyBlock := false
 	configured := -1
 	c.Eval(1)
 	pi := lib.Try(func() {
@@ -281,12 +284,40 @@ func c20Run(c *core.C) {
 				}
 			}
 			bb := parent.B.CreateBlock()
-			lib.FillBlock(bb, ast.Block{Checks: []ast.Check{{Queries: []ast.Rule{{Head: ast.P("query"), Body: []ast.Pred{ast.P("right", ast.Var("f"), ast.Str("read"))}}}}}})
+			if emptyBlock = c.Idx%2 == 1; !emptyBlock {
+				// (every second case appends a block with nothing in it: it draws key material all the same)
+				lib.FillBlock(bb, ast.Block{Checks: []ast.Check{{Queries: []ast.Rule{{Head: ast.P("query"), Body: []ast.Pred{ast.P("right", ast.Var("f"), ast.Str("read"))}}}}}})
+			}
+			parentBefore, _ = parent.B.Serialize()
 			tok, err = parent.B.Append(fr, bb.Build())
+			// the parent after the attempt: same bytes, still verifies, and can still be attenuated
+			// with a healthy source (a failed attempt leaves nothing behind in it)
+			parentAfter, _ = parent.B.Serialize()
+			if _, verr := parent.B.AuthorizerFor(biscuit.WithSingularRootPublicKey(pub)); verr != nil {
+				parentBroken = "the parent no longer verifies: " + verr.Error()
+			}
+			bb2 := parent.B.CreateBlock()
+			lib.FillBlock(bb2, ast.Block{Facts: []ast.Pred{ast.P("retry", ast.Int(1))}})
+			if rt, rerr := parent.B.Append(lib.NewDetRand(c.Seed, fmt.Sprintf("c20-retry-%d", c.Idx)), bb2.Build()); rerr != nil {
+				parentBroken = "a later Append with a healthy source failed: " + rerr.Error()
+			} else if _, verr := rt.AuthorizerFor(biscuit.WithSingularRootPublicKey(pub)); verr != nil && parentBroken == "" {
+				parentBroken = "a token appended later with a healthy source does not verify: " + verr.Error()
+			}
 		}
 	})
 	desc["delivered_bytes"] = len(fr.delivered)
 	desc["read_calls"] = fr.calls
+	if emptyBlock {
+		desc["appended_block"] = "empty"
+	}
+	if pi == nil && parentBefore != nil {
+		if !bytes.Equal(parentBefore, parentAfter) {
+			parentBroken = "the parent serializes differently after the attempt"
+		}
+		if parentBroken != "" {
+			c.Violate("parent-damaged-by-append-attempt/"+c20Ops[op], parentBroken, desc)
+		}
+	}
 	failing := fr.failAfter >= 0
 	if retry && fr.errored {
 		// first attempt: the usual obligation (error, no token, no panic); the second attempt on
@@ -375,7 +406,7 @@ func init() {
 		ID:        "C20",
 		MinCounts: map[string]int{"retries_after_failure": 500, "by_value_reader_cases": 6},
 		Level:     "fault_enumeration",
-		Rule: fmt.Sprintf("exhaustive fault enumeration (complete in both tiers, %d cases): operation in {Builder.Build with WithRNG, New(rng,...), Append on a built parent, Append on a re-loaded parent, both Appends again with a source that REPLAYS the stream the parent was built from (its first 32 bytes are the secret the parent already carries; failure points 32..63, so a library that draws a second time is handed the error), Build / New / Append with a source whose first 32 bytes are zero (failure points 32..63 likewise), and Build asked AGAIN on the same builder after the failure with the source recovered (the second token's secret must be 32 consecutive delivered bytes), and six cases with readers passed by value whose value is the zero value of their type (one never delivers, one delivers zeros)} x failure point k in 0..31 delivered bytes x error in {io.EOF, io.ErrUnexpectedEOF, custom} x {error on the next read, error together with the last bytes} x delivery in {one read, one byte per read, zero-length reads interleaved}, plus the no-failure control of every delivery. Oracle: a source that handed the library an error must give an error and no token (and no panic); a returned token must carry exactly the delivered 32 bytes as next secret, announce the public key of that seed and verify under the independent chain verifier. ", c20Total()+6) +
+		Rule: fmt.Sprintf("exhaustive fault enumeration (complete in both tiers, %d cases): operation in {Builder.Build with WithRNG, New(rng,...), Append on a built parent, Append on a re-loaded parent, both Appends again with a source that REPLAYS the stream the parent was built from (its first 32 bytes are the secret the parent already carries; failure points 32..63, so a library that draws a second time is handed the error), Build / New / Append with a source whose first 32 bytes are zero (failure points 32..63 likewise), and Build asked AGAIN on the same builder after the failure with the source recovered (the second token's secret must be 32 consecutive delivered bytes), every Append case also checks the PARENT afterwards (same bytes, still verifies, a later Append with a healthy source gives a verifying token) and every second one appends an empty block, and six cases with readers passed by value whose value is the zero value of their type (one never delivers, one delivers zeros)} x failure point k in 0..31 delivered bytes x error in {io.EOF, io.ErrUnexpectedEOF, custom} x {error on the next read, error together with the last bytes} x delivery in {one read, one byte per read, zero-length reads interleaved}, plus the no-failure control of every delivery. Oracle: a source that handed the library an error must give an error and no token (and no panic); a returned token must carry exactly the delivered 32 bytes as next secret, announce the public key of that seed and verify under the independent chain verifier. ", c20Total()+6) +
 			"Non-trivial = distinct (operation, k, error, timing, delivery) tuples; every one injects a real fault or is a control.",
 		Assumptions: []string{"crypto/ed25519.GenerateKey draws exactly 32 bytes from the supplied reader with io.ReadFull (true for the pinned toolchain go1.23)"},
 		NumCases:    func(string) int { return c20Total() + 6 },
